@@ -250,8 +250,12 @@ def build_psbt(tx, version, in_maps=None, out_maps=None, global_extra=(), explic
                      [(o.value, o.script_pubkey.data) for o in tx.vout], tx.locktime)
         b += kv(b"\x00", utx)
     else:
-        b += kv(b"\x02", tx.version.to_bytes(4, "little"))
-        b += kv(b"\x03", tx.locktime.to_bytes(4, "little"))
+        # PSBT_GLOBAL_TX_VERSION / FALLBACK_LOCKTIME are sometimes left out when the transaction has the values
+        # embit assumes for a missing field (version 2, locktime 0): both parsers accept such a PSBT
+        if not (tx.version == 2 and rng is not None and rng.random() < 0.5):
+            b += kv(b"\x02", tx.version.to_bytes(4, "little"))
+        if not (tx.locktime == 0 and rng is not None and rng.random() < 0.5):
+            b += kv(b"\x03", tx.locktime.to_bytes(4, "little"))
         b += kv(b"\x04", cs(nin)) + kv(b"\x05", cs(nout))
         b += kv(b"\xfb", (2).to_bytes(4, "little"))
     for (k, v) in global_extra:
